@@ -665,9 +665,10 @@ fn coord() -> impl Strategy<Value = u8> {
     prop_oneof![3 => 0u8..64, 1 => Just(0u8), 1 => Just(63u8)]
 }
 
-/// Map definitions whose chunk presence follows the version rule; `allow_offrule` adds
-/// the off-rule corners (terrain map with names on Cataclysm+, WMO-only map without
-/// MWMO/MODF, pre-Cataclysm terrain without MWMO) at low rate.
+/// Map definitions whose chunk presence follows the version rule (MAID only on 8.x+, MWMO
+/// per `rule_has_mwmo`, MODF on WMO-only maps); off-rule corners (terrain map with names on
+/// Cataclysm+, WMO-only map without MWMO/MODF, pre-Cataclysm terrain without MWMO, MAID
+/// flag and chunk each alone) are mixed in at low rate.
 pub fn strategy() -> impl Strategy<Value = WdtModel> {
     let head = (0u8..10, prop::bool::weighted(0.3), prop_oneof![1 => Just(0u16), 3 => any::<u16>()], any::<u32>(), proptest::array::uniform6(prop_oneof![2 => Just(0u32), 1 => any::<u32>()]), proptest::array::uniform7(any::<u32>()));
     let tiles = (fill_strategy(), prop::collection::vec((coord(), coord(), prop_oneof![3 => Just(1u32), 1 => any::<u32>()], prop_oneof![1 => 0u32..5000, 1 => any::<u32>()]), 0..8));
